@@ -608,3 +608,133 @@ End Combined.
 
 (* the name DESIGN.md uses *)
 Definition fork_version_refuted := fork_version_orig_refuted.
+
+(* ---------- deepening: any consistent start, the Electra stub, uniqueness of the named fork ---------- *)
+
+(* ProcessSlots from ANY state that is consistent with the schedule (not only genesis) *)
+Theorem process_slots_from_good c s0 target :
+  schedule_sorted c -> 0 < c_spe c -> 1 <= e_altair c -> s0 < target -> target / c_spe c < e_electra c ->
+  process_slots c (good c s0) target = Ok (good c target).
+Proof.
+  intros Hs Hp Ha Hlt Hel. unfold process_slots, process_slots_gen.
+  change (st_slot (good c s0)) with s0. destruct (N.leb_spec target s0); [lia|].
+  assert (Heq : s0 + N.of_nat (N.to_nat (target - s0)) = target) by lia.
+  rewrite process_slots_loop_good; rewrite ?Heq; try assumption. reflexivity.
+Qed.
+
+Lemma process_slots_loop_app atb c n : forall m s,
+  process_slots_loop atb c (n + m) s
+  = match process_slots_loop atb c n s with Ok s' => process_slots_loop atb c m s' | e => e end.
+Proof.
+  induction n as [|n IH]; intros m s; [reflexivity|].
+  cbn [Nat.add process_slots_loop].
+  destruct (upgrade_maybe_gen atb c _) as [s'| | | |]; try reflexivity. apply IH.
+Qed.
+
+(* first slot of the Electra epoch: the cascade reaches a deneb state and UpgradeToElectra refuses *)
+Lemma upgrade_maybe_boundary_electra c e slot :
+  schedule_sorted c -> 1 <= e_altair c ->
+  slot mod c_spe c = 0 -> slot / c_spe c = e + 1 -> e + 1 = e_electra c ->
+  upgrade_maybe c (mkSt (spec_fork_at_epoch c e) (spec_fork_record c e) slot) = Err.
+Proof.
+  intros Hs Ha Hmod Hdiv Hel.
+  unfold upgrade_maybe, upgrade_maybe_gen. cbv zeta.
+  unfold spec_fork_record, spec_fork_at_epoch, schedule_sorted in *.
+  split_cmp; cbn [pred_fork version_of epoch_of];
+    repeat (match goal with
+            | |- context [upgrade_if ?atb ?c ?pre ?post (mkSt ?t (mkFork ?p ?cu ?ep) ?sl)] =>
+                first [ rewrite (upgrade_if_miss atb c pre post t (mkFork p cu ep) sl) by reflexivity
+                      | rewrite (upgrade_if_hit atb c pre post t p cu ep sl) by reflexivity;
+                        rewrite (at_boundary_epoch c sl _ _ Hmod Hdiv); cbn [epoch_of version_of];
+                        match goal with
+                        | |- context [N.eqb ?a ?b] => destruct (N.eqb_spec a b); try lia
+                        end; cbv beta iota ]
+            end);
+    cbn [st_type st_slot fork_eqb andb];
+    try (rewrite (at_boundary_epoch c slot _ _ Hmod Hdiv);
+         match goal with
+         | |- context [N.eqb ?a ?b] => destruct (N.eqb_spec a b); try lia
+         end; cbv beta iota);
+    reflexivity.
+Qed.
+
+Lemma process_slots_loop_err atb c n : forall s,
+  upgrade_maybe_gen atb c (mkSt (st_type s) (st_fork s) (st_slot s + 1)) = Err ->
+  process_slots_loop atb c (S n) s = Err.
+Proof. intros s He. cbn [process_slots_loop]. rewrite He. reflexivity. Qed.
+
+(* ProcessSlots to a slot at or after the Electra fork stops with an error at the fork's first slot:
+   so (for sorted schedules, from genesis) success is EXACTLY "the target lies before the Electra fork" *)
+Theorem process_slots_electra_refused c target :
+  schedule_sorted c -> 0 < c_spe c -> 1 <= e_altair c -> e_electra c <= target / c_spe c ->
+  process_slots c (genesis_state c) target = Err.
+Proof.
+  intros Hs Hp Ha Hge. unfold process_slots, process_slots_gen. cbn [genesis_state st_slot].
+  assert (He1 : 1 <= e_electra c) by (unfold schedule_sorted in Hs; lia).
+  set (b := e_electra c * c_spe c).
+  assert (Hb : b <= target).
+  { pose proof (N.mul_div_le target (c_spe c) ltac:(lia)) as Hm.
+    assert (e_electra c * c_spe c <= (target / c_spe c) * c_spe c) by (apply N.mul_le_mono_r; exact Hge).
+    unfold b. lia. }
+  assert (Hb1 : 1 <= b) by (unfold b; nia).
+  destruct (N.leb_spec target 0); [lia|].
+  rewrite genesis_good by assumption. rewrite N.sub_0_r.
+  (* split the loop: b-1 good steps, then the refused step, then the rest *)
+  replace (N.to_nat target) with (N.to_nat (b - 1) + S (N.to_nat (target - b)))%nat by lia.
+  rewrite process_slots_loop_app.
+  assert (Hdivb : b / c_spe c = e_electra c) by (unfold b; apply N.div_mul; lia).
+  assert (Hmodb : b mod c_spe c = 0) by (unfold b; apply N.mod_mul; lia).
+  assert (Hpre : (b - 1) / c_spe c = e_electra c - 1).
+  { pose proof (div_succ_boundary (c_spe c) (b - 1) Hp) as Hd.
+    replace (b - 1 + 1) with b in Hd by lia. specialize (Hd Hmodb). lia. }
+  rewrite process_slots_loop_good; rewrite ?N2Nat.id, ?N.add_0_l; try assumption; [|rewrite Hpre; lia].
+  apply process_slots_loop_err.
+  unfold good. cbn [st_type st_fork st_slot]. rewrite Hpre.
+  replace (b - 1 + 1) with b by lia.
+  fold (upgrade_maybe c).
+  apply (upgrade_maybe_boundary_electra c (e_electra c - 1) b); try assumption; lia.
+Qed.
+
+(* with distinct versions a version names exactly one fork *)
+Lemma version_of_injective c f g :
+  versions_distinct_b c = true -> version_of c f = version_of c g -> f = g.
+Proof.
+  intros Hd Heq. apply versions_distinct_spec in Hd. cbn [map all_forks] in Hd.
+  repeat match goal with
+         | Hn : NoDup (_ :: _) |- _ => inversion Hn; clear Hn; subst
+         end.
+  cbn [In] in *.
+  destruct f, g; cbn [version_of] in Heq; try reflexivity; exfalso; intuition congruence.
+Qed.
+Corollary fork_version_names_unique c slot f :
+  schedule_sorted c -> versions_distinct_b c = true ->
+  fork_version c slot = version_of c f -> f = spec_fork_at_epoch c (slot_to_epoch c slot).
+Proof.
+  intros Hs Hd Hv. apply (version_of_injective c _ _ Hd).
+  rewrite <- Hv, fork_version_correct by exact Hs. apply compute_fork_version_names.
+Qed.
+
+(* ---------- the snapshot's envelope check, on a concrete Capella block (real SHA-256) ---------- *)
+From V Require Import Base.Sha256.
+Section SnapshotSignature.
+  (* a toy signature scheme, enough to see WHICH message the check asks about: a "signature" is the message *)
+  Let toy_verify (pk msg sig : bytes) : bool := bytes_eqb msg sig.
+  Let gvr : bytes := repeat 7 32.
+  Let slot : N := 200000 * 32.                         (* a Capella epoch of mainnet_like *)
+  Let root (sig : bytes) : bytes :=
+    block_root sha256 bytes (fun _ b => b) (mkBlock bytes Capella slot 5 (repeat 1 32) (repeat 2 32) (repeat 3 32) sig).
+  Let msg_under (v : N) : bytes := signing_root sha256 (root []) (compute_domain sha256 DOMAIN_BEACON_PROPOSER v gvr).
+  Let env (v_signed v_digest : N) : envelope bytes :=
+    envelope_of sha256 bytes (fun _ b => b)
+      (mkBlock bytes Capella slot 5 (repeat 1 32) (repeat 2 32) (repeat 3 32) (msg_under v_signed))
+      (fork_digest sha256 v_digest gvr).
+
+  Lemma verify_signature_orig_refuted :
+    (* signed under the Capella version, as the specification demands: the snapshot rejects, the repaired code accepts *)
+    verify_signature_orig sha256 bytes toy_verify mainnet_like (env (v_capella mainnet_like) (v_capella mainnet_like)) gvr 5 [] = false /\
+    verify_signature sha256 bytes toy_verify mainnet_like (env (v_capella mainnet_like) (v_capella mainnet_like)) gvr 5 [] = true /\
+    (* signed under the DENEB version with the Deneb digest: the snapshot accepts, the repaired code rejects *)
+    verify_signature_orig sha256 bytes toy_verify mainnet_like (env (v_deneb mainnet_like) (v_deneb mainnet_like)) gvr 5 [] = true /\
+    verify_signature sha256 bytes toy_verify mainnet_like (env (v_deneb mainnet_like) (v_deneb mainnet_like)) gvr 5 [] = false.
+  Proof. vm_compute. repeat split; reflexivity. Qed.
+End SnapshotSignature.
